@@ -195,10 +195,8 @@ class Tracer(object):
                     # closure parameter: the element of the iterator the closure is mapped over, when that is visible
                     cl = st['place']['l'] if not st['place']['p'] else None
                     if cl is not None:
-                        it = self.eng.applied_to(body, bb, cl)
-                        if it is not None:
-                            from .terms import mk_elem
-                            cenv[('param', cb.key, 2)] = self._sub(mk_elem(self.eng, it), env, site)
+                        for pi, pt in self.eng.applied_env(body, bb, cl).items():
+                            cenv[('param', cb.key, pi)] = self._sub(pt, env, site)
                     out.extend(self.trace(cb, cenv, site + ((body.key, bb),), here_loops + (('C', cpath),), must and is_must(), depth + 1))
             t = blk['term']
             if t['k'] != 'call':
